@@ -56,6 +56,26 @@ CHECKS = {
   "cross_validate / cross_val_predict are NOT covered (the harness exceeded 17-40 GB).",
   "Trusts Kani/CBMC; thread_rng and SliceRandom::shuffle are stubbed (fake_thread_rng, any_perm = arbitrary permutation); KFold::split for k >= 3 does not finish (Vec<Vec<bool>>::reverse), so for k >= 3 only test_indices/test_masks (hook) are decided; larger n and cross-validation are outside the claim.",
   "DESIGN.md 6/C16"),
+ "C07": (True,
+  "Ridge regression with one feature (n = 2, 3; x, y on an integer lattice; alpha in {1/2, 1, 2}; no normalisation; Cholesky solver): CBMC proves through the real fit (transpose, matmul, cholesky_solve_mut) that the intercept is exactly 0 and w*(sum x^2 + alpha) = sum x*y, "
+  "i.e. the gradient of the stated objective vanishes, and that predict(X) = X*w + b row by row; invalid shapes (n <= p, |y| != n) are errors for ridge and OLS. Thorough tier: normalised ridge (stationarity with unpenalised intercept) and OLS p = 1 through QR (normal equations). p >= 2, solver agreement and non-lattice accuracy are outside.",
+  "Trusts Kani/CBMC; error constructors trapped (an Err on valid input is a violation); hypot/powi stubbed; only p = 1 because a 2-column SVD/normalised 2x2 system does not finish; tolerances are absolute on lattice data.",
+  "DESIGN.md 6/C07"),
+ "C08": (True,
+  "The error-reporting clause only: with the interior-point optimiser replaced by a trap (reaching it is a failed assertion) CBMC proves that Lasso::fit returns Err - and neither panics nor enters the optimiser - for every negative alpha, every tol <= 0 (any f64), max_iter = 0, |y| != n, n <= p, "
+  "and a constant column k/4 under normalisation; ElasticNet rejects a length mismatch. Constant columns with non-dyadic values are NOT rejected (known finding C08-constant-column-not-rejected, reproduced by a witness harness). Near-optimality, termination and the elastic-net/Lasso relation are outside (unbounded iteration).",
+  "Trusts Kani/CBMC; InteriorPointOptimizer::optimize is stubbed by a trap, powi by multiplication; the design matrix is concrete (3x1) in the parameter harnesses - the quantified inputs are the settings.",
+  "DESIGN.md 6/C08"),
+ "C10": (True,
+  "Kernels on lattice vectors (d <= 3): linear kernel equals the integer dot product, is symmetric and its 2-point Gram matrix is PSD; for RBF / polynomial / sigmoid the exact argument handed to exp / powf / tanh is proved to be -gamma*||x-y||^2, (gamma<x,y>+coef0, degree), gamma<x,y>+coef0, bit-identical under exchange of x and y, "
+  "and 0 for identical points (RBF); mismatched lengths panic. Prediction formula on ARBITRARY models built from parts (2-3 support vectors, d <= 2, linear kernel): decision_function = sum w_i K(sv_i,x) + b exactly, label = larger class iff decision > 0, one value per row; same for SVR. Training (SMO: feasibility, KKT, termination, visiting orders) is outside.",
+  "Trusts Kani/CBMC and std's exp/powf/tanh (only their arguments are decided, via recorder stubs); models are built through cfg(feature=verif) from-parts hooks; RBF Gram PSD-ness and everything about fitting are not covered.",
+  "DESIGN.md 6/C10"),
+ "C12": (True,
+  "The pruning predicate of the BBD filtering tree is proved sound AND exact on a half-integer lattice (d = 1, 2; 3 thorough): whenever prune(best, test) holds no point of the box is closer to test than to best, and whenever it does not hold the extreme corner is strictly closer to test; a centroid never prunes itself. "
+  "KMeans::predict on an arbitrary model (k <= 3, d <= 2) assigns every row the first centroid at minimal squared distance. KMeans::fit (seeding, Lloyd iterations, empty clusters) and the whole filtering pass are outside (do not finish).",
+  "Trusts Kani/CBMC; BBDTree::prune and the model constructor are reached through cfg(feature=verif) hooks; agreement of the tree-accelerated assignment with exhaustive search is NOT decided, only its pruning test.",
+  "DESIGN.md 6/C12"),
  "C15": (True,
   "For every label/score vector of length <= 4 (5 thorough; AUC scores any finite f32 incl. ties, labels symbolic; regression targets on an integer or half-integer lattice) "
   "CBMC proves that the real accuracy, precision, recall, F-beta (beta in {1/2,1,2}), ROC-AUC, MSE, MAE and R^2 code returns exactly the value of the textbook definition "
